@@ -3,7 +3,7 @@
 From Coq Require Import String Ascii List Bool Arith ZArith PrimFloat.
 Import ListNotations.
 Require Import Generated PyBase PyStr Lex Format Symbols Split Merge ParseEq ParseModel Solver SolverF Eval EvalF.
-Require Import CodeGen CodeGenF CodeGenFacts CodeGenFacts2.
+Require Import CodeGen CodeGenF CodeGenFacts CodeGenFacts2 CodeGenLexFacts CodeGenSrc CodeGenSrcFacts CodeGenSrcFacts2.
 Open Scope string_scope.
 
 Definition lf : string := String (ascii_of_nat 10) "".
@@ -95,6 +95,16 @@ Example scriptC_pass :
   end.
 Proof. vm_compute. reflexivity. Qed.
 
+(* the premises of script_pass_feasible hold for scriptC on a two-period store at t = 1 (position 1):
+   deepest lag 1, no lead *)
+Example scriptC_feasible :
+  match program_of_script scriptC with
+  | Some (names, p) => length names = 6 /\ terms_lags (prog_terms string p) = 1 /\ terms_leads (prog_terms string p) = 0 /\
+                       py_pos 2 1%Z = Some 1
+  | None => False
+  end.
+Proof. vm_compute. repeat split. Qed.
+
 (* statement_terms_exact is not vacuous *)
 Example stmt_terms_instance :
   exists y st, stmt_of_equation (fun x => index_of x ["Y"; "X"; "p"]) "Y[1] = X[-2]*{ p } + X" = Some (y, st) /\
@@ -105,4 +115,35 @@ Proof. eexists. eexists. split; vm_compute; reflexivity. Qed.
 Example literal_values :
   (lit_float "0.1", lit_float "1.5", lit_float "3", lit_float ".25", lit_float "1.", lit_float "12.75")
   = (0x1.999999999999ap-4, 0x1.8p+0, 0x1.8p+1, 0x1p-2, 0x1p+0, 0x1.98p+3)%float.
+Proof. vm_compute. reflexivity. Qed.
+
+(* ---------- flat token sequences: wf is satisfiable by a statement with every trap of the property ---------- *)
+Definition tsA : list stok :=
+  [SVar "Yd" (Some "1"); SGap " = "; SBra true " " "alpha_1" " " None; SGap "*"; SFun "exp" " "; SGap "(  ";
+   SVar "is_open" (Some "-12"); SGap " ) + "; SFun "min" ""; SGap "( "; SVar "Pin" (Some " +2 "); SGap ",1.5 )/";
+   SBra false " " "e" " " None; SGap " - "; SVar "not_X" None; SGap "**2 + 3*"; SBra true "" "p" "" (Some "-1");
+   SGap (" + (" ++ lf ++ "   "); SVar "in_" (Some "0"); SGap "-"; SVar "expo" None; SGap ")"].
+Example tsA_wf :
+  wf tsA = true /\
+  render tsA = "Yd[1] = { alpha_1 }*exp (  is_open[-12] ) + min( Pin[ +2 ],1.5 )/< e > - not_X**2 + 3*{p}[-1] + (" ++ lf ++ "   in_[0]-expo)".
+Proof. vm_compute. split; reflexivity. Qed.
+(* … it has the shape `left = right` with the `=` in a gap, no `}` in a gap, and parse_equation accepts it *)
+Example tsA_shape :
+  tsA = ([SVar "Yd" (Some "1")] ++ SGap (" " ++ String "=" " ") :: tl (tl tsA))%list /\
+  no_rbrace tsA = true /\ has_char "=" (render [SVar "Yd" (Some "1")] ++ " ") = false /\
+  head_is "`" (render tsA) = false /\
+  exists syms, parse_equation_M (render tsA) = POk syms.
+Proof. repeat split; try (vm_compute; reflexivity). eexists. vm_compute. reflexivity. Qed.
+
+(* keywords and a backticked fragment: a conditional expression with `not`, `and`, a namespaced call kept verbatim *)
+Definition tsB : list stok :=
+  [SVar "C" None; SGap " = ("; SBra true "" "a" "" None; SGap "*"; SVar "X" (Some "-1"); SGap ") "; SKw "if"; SGap " ";
+   SKw "not"; SGap " "; SVar "is_open" None; SGap " > 0 "; SKw "and"; SGap " "; SVar "Pin" None; SGap " "; SKw "else"; SGap " ";
+   SVerb "np.pi"; SGap " * "; SVar "W" (Some "1")].
+Example tsB_wf :
+  wf tsB = true /\ render tsB = "C = ({a}*X[-1]) if not is_open > 0 and Pin else `np.pi` * W[1]" /\
+  code_text (render tsB) = Some "self._C[t] = (self._a[t]*self._X[t-1]) if not self._is_open[t] > 0 and self._Pin[t] else np.pi * self._W[t+1]".
+Proof. vm_compute. repeat split; reflexivity. Qed.
+Example tsA_code :
+  code_text (render tsA) = Some "self._Yd[t+1] = self._alpha_1[t]*np.exp(self._is_open[t-12]) + min(self._Pin[t+2],1.5)/self._e[t] - self._not_X[t]**2 + 3*self._p[t-1] + (self._in_[t]-self._expo[t])".
 Proof. vm_compute. reflexivity. Qed.
